@@ -6,7 +6,7 @@ HOOKS = {
     "add_only": True,
 }
 ENGINES = [
-    {"name": "ptrefs", "path": "lean/Fbr/PtRefs.lean lean/Fbr/PtSpec.lean lean/Fbr/PtRefsShow.lean lean/Fbr/Lemmas/Pt*.lean lean/Fbr/Lemmas/Pack.lean lean/Drv/PtRefs.lean harness/src/bin/ptrefs.rs",
+    {"name": "ptrefs", "path": "lean/Fbr/PtRefs.lean lean/Fbr/PtSpec.lean lean/Fbr/PtRefsShow.lean lean/Fbr/Lemmas/{PtMap,PtProj,PtRefsBasic,PtEffect,PtRef,PtTrace,PtStepTr,PtRun,PtFresh,PtSession,PtCount,PtLedger,PtLedgerOps,PtLedgerStep,PtHandles,PtFreshTables,Pack}.lean lean/Drv/PtRefs.lean harness/src/bin/ptrefs.rs",
      "serves_properties": ["C08", "C15"],
      "kind_free_text": "Lean 4 model of the passthrough inode table / handle table / mount-fd count / descriptor ledger with theorems by induction over request histories (refinement to a client-side ledger, ledger invariant under any fault oracle); differential harness driving the real PassthroughFs through whole histories on a temp dir under {inode_file_handles}x{use_host_ino}x{no_open}x{no_opendir}, getattr probes on every number ever seen, H2 table sizes, /proc/self/fd counts, EMFILE injection by RLIMIT_NOFILE headroom"},
     {"name": "conc", "path": "lean/Fbr/Conc.lean lean/Fbr/ConcShow.lean lean/Fbr/Lemmas/Conc*.lean lean/Drv/Conc.lean harness/src/bin/conc.rs",
